@@ -114,6 +114,9 @@ def chemical(n, e0, e1, e2, e3, e4, b01=0, b02=0, b03=0, b04=0, b12=0, b13=0, b1
     return None
 
 
+STD_CHECK = True
+
+
 def _export_check(els, ac):
     """the bond orders written onto the RDKit molecule by set_bond_orders (MolGraph._to_rdmol) are the computed ones, per graph bond, also when
     the identifiers are not 0..n-1 in ascending insertion order"""
@@ -143,6 +146,32 @@ def _export_check(els, ac):
             exp = float(bo[pos[x]][pos[y]])
             if got != exp:
                 return f"RDKit bond {x}-{y} has order {got}, bond-order matrix says {exp} (ids {ids}, elements {els})"
+        # (round 3) the same molecule as a derived graph: subgraph over all atoms listed in another order (atom table and neighbour table then have
+        # different key orders); the exported molecule must keep the connectivity and give every atom a standard valence, like the matrix above
+        el_of = dict(zip(ids, els))
+        for order in (list(reversed(ids)), ids[1:] + ids[:1], sorted(ids, key=lambda x: (x * 7) % 5)):
+            h = g.subgraph(order)
+            with warnings.catch_warnings():
+                warnings.simplefilter("ignore")
+                try:
+                    mol2, map2 = h._to_rdmol(generate_bond_orders=True)
+                except Exception as e:
+                    return f"export of subgraph({order}) with bond orders raised {type(e).__name__}: {e}"
+            at2 = dict(map2)
+            val = {a: 0.0 for a in ids}
+            for bnd in mol2.GetBonds():
+                x, y = at2[bnd.GetBeginAtomIdx()], at2[bnd.GetEndAtomIdx()]
+                if not g.has_bond(x, y) or bnd.GetBondTypeAsDouble() < 1:
+                    return f"subgraph({order}) exported with a bond {x}-{y} of order {bnd.GetBondTypeAsDouble()} that the graph does not have"
+                val[x] += bnd.GetBondTypeAsDouble()
+                val[y] += bnd.GetBondTypeAsDouble()
+            if mol2.GetNumBonds() != len(g.bonds):
+                return f"subgraph({order}) exported with {mol2.GetNumBonds()} bonds, graph has {len(g.bonds)}"
+            for a in ids:
+                if mol2.GetAtomWithIdx({v: k for k, v in at2.items()}[a]).GetAtomicNum() != el_of[a]:
+                    return f"subgraph({order}): exported atom {a} is not {el_of[a]}"
+                if STD_CHECK and int(val[a]) not in STD[el_of[a]]:
+                    return f"subgraph({order}) exported via the bond-order search: atom {a} ({el_of[a]}) has valence {val[a]} (elements {els}, ids {ids})"
     return None
 
 
